@@ -207,6 +207,27 @@ def rejections(ctx, rule):
                 n += 1
                 ctx.ob(rule, key, ok, "%s propagates the failure of %s" % (name.rsplit("::", 1)[-1], sorted({last_seg(c_) for c_ in inner})), fn.loc(lf.bb))
     ctx.ob(rule, "rejections|floor", n >= 8, "%d kinds of rejecting path classified in the three parsers (floor 8)" % n)
+    # ... and nowhere else on the read side: the loop around the parsers and try_read build no ParseError of their own
+    # ("at most N requests per read" would be one); read_bytes only its full-buffer guard (R04.6)
+    m = 0
+    for name in (conn.parse_loop_fn(ctx), conn.P + "try_read", conn.READ_BYTES):
+        if not facts.has_fn(name):
+            continue
+        fn, lv = leaves(ctx, name)
+        for lf in lv:
+            rk = ret_kind(lf)
+            if rk is None or rk[0] != "Err":
+                continue
+            e = look(rk[1])
+            if not (e[0] == "agg" and e[2] == "ParseError"):
+                continue
+            i = look(e[3][0])
+            if i[0] != "agg":
+                continue        # an error handed on from a parser
+            m += 1
+            guard = name == conn.READ_BYTES and i[2] == "Overflow" and lf.conds and any(isinstance(x, tuple) and x and x[0] == "field" and x[3] == "read_cursor" for x in subterms(lf.conds[-1][0]))
+            ctx.ob(rule, "rejections|outside-the-parsers|%s|%s" % (name.rsplit("::", 1)[-1], i[2]), bool(guard), "%s builds ParseError(%s) itself: outside the three parsers only read_bytes' full-buffer guard refuses input" % (name.rsplit("::", 1)[-1], i[2]), fn.loc(lf.bb))
+    ctx.ob(rule, "rejections|outside-the-parsers|floor", m >= 1, "%d ParseError construction(s) outside the three parsers inspected (read_bytes' guard)" % m)
 
 
 def order(ctx):
